@@ -159,11 +159,7 @@ func checkVerificationLoopsTotal(r *Run, p *packages.Package) {
 		if fn == nil || fn.Pkg() != p.Types {
 			return false
 		}
-		switch fn.Name() {
-		case "verifyChecksum", "verifyChecksumValues":
-			return true
-		}
-		return false
+		return checksumVerifiers(p)[fn.Origin()]
 	}
 	n := 0
 	for _, f := range p.Syntax {
@@ -351,4 +347,58 @@ func checkEOFGateCountsBytes(r *Run, p *packages.Package) {
 	} else {
 		r.Pass(rule, "requireEncryptedArchiveEOF:count-before-error", fd.Pos(), "success is reported only after the byte count was found to be zero")
 	}
+}
+
+// checksumVerifiers: the functions of the package that compare a fragment's digest and size with the manifest — the
+// function that can return a ChecksumMismatchError, and the functions that call it directly (found by the exported
+// error type, not by private names).
+func checksumVerifiers(p *packages.Package) map[*types.Func]bool {
+	info := p.TypesInfo
+	out := map[*types.Func]bool{}
+	var core []*types.Func
+	for _, fd := range declsWhere(p, func(fd *ast.FuncDecl) bool {
+		found := false
+		ast.Inspect(fd.Body, func(n ast.Node) bool {
+			if cl, ok := n.(*ast.CompositeLit); ok && namedName(info.TypeOf(cl)) == "ChecksumMismatchError" {
+				found = true
+			}
+			return !found
+		})
+		return found
+	}) {
+		if fn, ok := info.Defs[fd.Name].(*types.Func); ok {
+			out[fn] = true
+			core = append(core, fn)
+		}
+	}
+	for _, fd := range declsWhere(p, func(fd *ast.FuncDecl) bool {
+		calls := false
+		ast.Inspect(fd.Body, func(n ast.Node) bool {
+			if c, ok := n.(*ast.CallExpr); ok {
+				if fn := calleeOf(info, c); fn != nil {
+					for _, k := range core {
+						if fn.Origin() == k {
+							calls = true
+						}
+					}
+				}
+			}
+			return !calls
+		})
+		// only thin wrappers: a function that itself loops over entries is a verification loop, not a verifier
+		hasLoop := false
+		ast.Inspect(fd.Body, func(n ast.Node) bool {
+			switch n.(type) {
+			case *ast.RangeStmt, *ast.ForStmt:
+				hasLoop = true
+			}
+			return true
+		})
+		return calls && !hasLoop
+	}) {
+		if fn, ok := info.Defs[fd.Name].(*types.Func); ok {
+			out[fn] = true
+		}
+	}
+	return out
 }
